@@ -1,9 +1,12 @@
-import DcVerif.Lemmas.Window
+import DcVerif.Props.C07Gen
 /-!
 # C07 — the sliding window always equals the last N pushed values, across rewinds
 
-Model: `Model.Window` (the four storages behind `SlidingWindow`, transcribed from
-`dcl_data_structures/src/window_type/**`), spec: `Spec.Window` (functions of the push history alone).
+Model: `Gen.Window` — the four storages behind `SlidingWindow`, **generated** from
+`dcl_data_structures/src/window_type/**` by `tools/rs2lean_window.py` on every check run (one definition per Rust
+function; `Model.Window` only adds `run` / `history` / `observe`); spec: `Spec.Window` (functions of the push history
+alone). `Props/C07Gen.lean` proves what each generated function does on a state that represents a history; this file
+lifts that to all histories. Every theorem holds for every element size `tsz = size_of::<T>()`.
 
 Statement. For every storage `k` other than today's safe vector storage, every window size `0 < size`, every
 capacity `size < c` (array storages) resp. every multiple `2 ≤ c` (vector storages, capacity `size * c`), every
@@ -22,7 +25,7 @@ below, replayed on the real code by the correspondence check); `c07_vec_partial`
 `ptr::copy_nonoverlapping`); the section at the end documents where the old calls overlapped.
 -/
 namespace C07
-open Spec.Window Model.Window Lemmas.Window
+open Spec.Window Model.Window Lemmas.Window Gen.Window
 
 variable {α : Type}
 
@@ -64,90 +67,92 @@ theorem c07_new {k : Kind} {size c : Nat} (h : Admissible k size c) (d : α) :
     Inv size (cells k size c) (init size (cells k size c) d) ([] : List α) := by
   refine ⟨?_, inv_init _ _ d (cells_gt h) h.1⟩
   obtain ⟨hs, hc⟩ := h
-  cases k <;> simp only [new, cells] at * <;> simp [hc]
+  cases k <;> simp only [Gen.Window.new, arrNew, vecNew, uarrNew, uvecNew, vecFixedNew, cells, init] at * <;> simp [hc]
 
 /-- **one push**: on a state that represents history `xs`, every storage except today's `vec` returns normally, with
 the canonical next state, which represents `xs ++ [v]` (the unsafe vector storage needs `2 * size ≤ capacity`, which is
 what `multiple ≥ 2` provides: otherwise its `copy_nonoverlapping` would overlap) -/
-theorem c07_push {k : Kind} {n c : Nat} {w : St α} {xs : List α} (hk : k ≠ .vec) (h : Inv n c w xs)
+theorem c07_push {k : Kind} {n c : Nat} {w : St α} {xs : List α} (hk : k ≠ .vec) (tsz : Nat) (h : Inv n c w xs)
     (h2 : k = .uvec → 2 * n ≤ c) (v : α) :
-    push k w v = .ok (next n c w xs v) ∧ Inv n c (next n c w xs v) (xs ++ [v]) := by
+    push k tsz w v = .ok (next n c w xs v) ∧ Inv n c (next n c w xs v) (xs ++ [v]) := by
   refine ⟨?_, next_inv w xs v h⟩
   cases k with
-  | arr => exact pushArr_eq w xs v h
+  | arr => exact gen_push_arr w xs v h
   | vec => exact absurd rfl hk
-  | uarr => exact pushUArr_eq w xs v h
-  | uvec => exact pushUVec_eq w xs v h (h2 rfl)
-  | vecFixed => exact pushVecFixed_eq w xs v h
+  | uarr => exact gen_push_uarr tsz w xs v h
+  | uvec => exact gen_push_uvec w xs v h (h2 rfl)
+  | vecFixed => exact gen_push_vecFixed w xs v h
 
 /-- any number of pushes -/
-theorem c07_run {k : Kind} {n c : Nat} (hk : k ≠ .vec) (h2 : k = .uvec → 2 * n ≤ c) (ys : List α) :
-    ∀ (w : St α) (pre : List α), Inv n c w pre → ∃ w', run k w ys = .ok w' ∧ Inv n c w' (pre ++ ys) := by
+theorem c07_run {k : Kind} {n c : Nat} (hk : k ≠ .vec) (tsz : Nat) (h2 : k = .uvec → 2 * n ≤ c) (ys : List α) :
+    ∀ (w : St α) (pre : List α), Inv n c w pre → ∃ w', run k tsz w ys = .ok w' ∧ Inv n c w' (pre ++ ys) := by
   induction ys with
   | nil => intro w pre h; exact ⟨w, rfl, by simpa using h⟩
   | cons y ys ih =>
     intro w pre h
-    obtain ⟨he, hi⟩ := c07_push hk h h2 y
+    obtain ⟨he, hi⟩ := c07_push hk tsz h h2 y
     obtain ⟨w', hr, hi'⟩ := ih _ _ hi
     refine ⟨w', ?_, by simpa using hi'⟩
     simp only [run, he, hr]
 
 /-- **every history**: construct-and-push never panics, never meets undefined behaviour, and ends in a state that
 represents the history -/
-theorem c07_history {k : Kind} {size c : Nat} (hk : k ≠ .vec) (h : Admissible k size c) (d : α) (xs : List α) :
-    ∃ w, history k size c d xs = .ok w ∧ Inv size (cells k size c) w xs := by
+theorem c07_history {k : Kind} {size c : Nat} (hk : k ≠ .vec) (tsz : Nat) (h : Admissible k size c) (d : α)
+    (xs : List α) :
+    ∃ w, history k tsz size c d xs = .ok w ∧ Inv size (cells k size c) w xs := by
   obtain ⟨hn, hi⟩ := c07_new h d
-  obtain ⟨w, hr, hw⟩ := c07_run hk (fun e => cells_double h e) xs _ _ hi
+  obtain ⟨w, hr, hw⟩ := c07_run hk tsz (fun e => cells_double h e) xs _ _ hi
   refine ⟨w, ?_, by simpa using hw⟩
   simp only [history, hn, hr]
 
 /-- **C07, main theorem**: after any push history every observable equals the specification's answer -/
-theorem c07_window_is_last_n {k : Kind} {size c : Nat} (hk : k ≠ .vec) (h : Admissible k size c) (d : α)
+theorem c07_window_is_last_n {k : Kind} {size c : Nat} (hk : k ≠ .vec) (tsz : Nat) (h : Admissible k size c) (d : α)
     (xs : List α) :
-    ∃ w, history k size c d xs = .ok w ∧ observe k w d = Obs.ofSpec (Spec.Window.observe size xs) := by
-  obtain ⟨w, hh, hi⟩ := c07_history hk h d xs
-  exact ⟨w, hh, inv_observe k hi d⟩
+    ∃ w, history k tsz size c d xs = .ok w ∧ observe k tsz w d = Obs.ofSpec (Spec.Window.observe size xs) := by
+  obtain ⟨w, hh, hi⟩ := c07_history hk tsz h d xs
+  exact ⟨w, hh, gen_observe k tsz hi d⟩
 
 /-! ### the clauses of the property, one by one -/
 
 /-- slice / vec / arr are the last `size` values in push order once `size` values were pushed, `Err` before -/
-theorem c07_view {k : Kind} {size c : Nat} (hk : k ≠ .vec) (h : Admissible k size c) (d : α) (xs : List α) :
-    ∃ w, history k size c d xs = .ok w ∧
-      slice k w = (if size ≤ xs.length then .ok (lastN size xs) else .err) ∧
-      vec k w = (if size ≤ xs.length then .ok (lastN size xs) else .err) ∧
-      arr k w w.size d = (if size ≤ xs.length then .ok (lastN size xs) else .err) := by
-  obtain ⟨w, hh, hi⟩ := c07_history hk h d xs
+theorem c07_view {k : Kind} {size c : Nat} (hk : k ≠ .vec) (tsz : Nat) (h : Admissible k size c) (d : α) (xs : List α) :
+    ∃ w, history k tsz size c d xs = .ok w ∧
+      slice k tsz w = (if size ≤ xs.length then .ok (lastN size xs) else .err) ∧
+      vec k tsz w = (if size ≤ xs.length then .ok (lastN size xs) else .err) ∧
+      arr k tsz w w.size d = (if size ≤ xs.length then .ok (lastN size xs) else .err) := by
+  obtain ⟨w, hh, hi⟩ := c07_history hk tsz h d xs
   refine ⟨w, hh, ?_, ?_, ?_⟩
-  · rw [inv_slice k hi]; unfold view; split <;> rfl
-  · rw [inv_vec k hi]; unfold view; split <;> rfl
-  · rw [inv_arr k hi]; unfold view; split <;> rfl
+  · rw [gen_slice k tsz hi]; unfold view; split <;> rfl
+  · rw [gen_vec k tsz hi]; unfold view; split <;> rfl
+  · rw [gen_arr k tsz hi]; unfold view; split <;> rfl
 
 /-- `filled ↔ size ≤ n` and `empty ↔ n = 0` -/
-theorem c07_filled_empty {k : Kind} {size c : Nat} (hk : k ≠ .vec) (h : Admissible k size c) (d : α) (xs : List α) :
-    ∃ w, history k size c d xs = .ok w ∧
-      (filled k w = true ↔ size ≤ xs.length) ∧ (empty w = true ↔ xs = []) ∧ Model.Window.size w = size := by
-  obtain ⟨w, hh, hi⟩ := c07_history hk h d xs
-  refine ⟨w, hh, ?_, ?_, inv_size hi⟩
-  · rw [inv_filled k hi]; simp [Spec.Window.filled]
-  · rw [inv_empty hi]; simp [Spec.Window.empty]
+theorem c07_filled_empty {k : Kind} {size c : Nat} (hk : k ≠ .vec) (tsz : Nat) (h : Admissible k size c) (d : α) (xs : List α) :
+    ∃ w, history k tsz size c d xs = .ok w ∧
+      (filled k tsz w = .ok true ↔ size ≤ xs.length) ∧ (empty k tsz w = .ok true ↔ xs = []) ∧
+      Gen.Window.size k tsz w = .ok size := by
+  obtain ⟨w, hh, hi⟩ := c07_history hk tsz h d xs
+  refine ⟨w, hh, ?_, ?_, gen_size k tsz hi⟩
+  · rw [gen_filled k tsz hi]; simp [Spec.Window.filled]
+  · rw [gen_empty k tsz hi]; simp [Spec.Window.empty]
 
 /-- `first` is the oldest retained value (error only on the empty window), `last` the most recent value
 (error until filled) -/
-theorem c07_first_last {k : Kind} {size c : Nat} (hk : k ≠ .vec) (h : Admissible k size c) (d : α) (xs : List α) :
-    ∃ w, history k size c d xs = .ok w ∧
-      first k w = ofSpec (lastN size xs).head? ∧
-      last k w = (if size ≤ xs.length then ofSpec xs.getLast? else .err) := by
-  obtain ⟨w, hh, hi⟩ := c07_history hk h d xs
-  refine ⟨w, hh, inv_first k hi, ?_⟩
-  rw [inv_last k hi]; unfold Spec.Window.last; split <;> rfl
+theorem c07_first_last {k : Kind} {size c : Nat} (hk : k ≠ .vec) (tsz : Nat) (h : Admissible k size c) (d : α) (xs : List α) :
+    ∃ w, history k tsz size c d xs = .ok w ∧
+      first k tsz w = ofSpec (lastN size xs).head? ∧
+      last k tsz w = (if size ≤ xs.length then ofSpec xs.getLast? else .err) := by
+  obtain ⟨w, hh, hi⟩ := c07_history hk tsz h d xs
+  refine ⟨w, hh, gen_first k tsz hi, ?_⟩
+  rw [gen_last k tsz hi]; unfold Spec.Window.last; split <;> rfl
 
 /-- the not-yet-filled accessors report an error instead of data -/
-theorem c07_unfilled_err {k : Kind} {size c : Nat} (hk : k ≠ .vec) (h : Admissible k size c) (d : α) (xs : List α)
+theorem c07_unfilled_err {k : Kind} {size c : Nat} (hk : k ≠ .vec) (tsz : Nat) (h : Admissible k size c) (d : α) (xs : List α)
     (hx : xs.length < size) :
-    ∃ w, history k size c d xs = .ok w ∧ last k w = .err ∧ slice k w = .err ∧ vec k w = .err ∧
-      arr k w w.size d = .err := by
-  obtain ⟨w, hh, hs, hv, ha⟩ := c07_view hk h d xs
-  obtain ⟨w', hh', _, hl⟩ := c07_first_last hk h d xs
+    ∃ w, history k tsz size c d xs = .ok w ∧ last k tsz w = .err ∧ slice k tsz w = .err ∧ vec k tsz w = .err ∧
+      arr k tsz w w.size d = .err := by
+  obtain ⟨w, hh, hs, hv, ha⟩ := c07_view hk tsz h d xs
+  obtain ⟨w', hh', _, hl⟩ := c07_first_last hk tsz h d xs
   have : w' = w := by rw [hh] at hh'; injection hh' with e; exact e.symm
   subst this
   have hn : ¬ size ≤ xs.length := by omega
@@ -156,45 +161,52 @@ theorem c07_unfilled_err {k : Kind} {size c : Nat} (hk : k ≠ .vec) (h : Admiss
 
 /-- `arr::<s>()` at an arbitrary width: narrower than the window panics (`arr[..size]`), wider is padded with the
 default value -/
-theorem c07_arr_width {k : Kind} {size c : Nat} (hk : k ≠ .vec) (h : Admissible k size c) (d : α) (xs : List α)
+theorem c07_arr_width {k : Kind} {size c : Nat} (hk : k ≠ .vec) (tsz : Nat) (h : Admissible k size c) (d : α) (xs : List α)
     (s : Nat) :
-    ∃ w, history k size c d xs = .ok w ∧
-      arr k w s d = (if size ≤ xs.length then
+    ∃ w, history k tsz size c d xs = .ok w ∧
+      arr k tsz w s d = (if size ≤ xs.length then
                        (if s < size then .panic else .ok (lastN size xs ++ List.replicate (s - size) d))
                      else .err) := by
-  obtain ⟨w, hh, hi⟩ := c07_history hk h d xs
-  exact ⟨w, hh, inv_arr_width k hi s d⟩
+  obtain ⟨w, hh, hi⟩ := c07_history hk tsz h d xs
+  exact ⟨w, hh, gen_arr_width k tsz hi s d⟩
 
-/-- **all back-ends agree** (array, unsafe array, unsafe vector, repaired vector; any capacities / multiples):
-after the same history every observable is the same -/
-theorem c07_backends_agree {k₁ k₂ : Kind} {size c₁ c₂ : Nat} (hk₁ : k₁ ≠ .vec) (hk₂ : k₂ ≠ .vec)
+/-- **all back-ends agree** (array, unsafe array, unsafe vector, repaired vector; any capacities / multiples, any
+element sizes): after the same history every observable is the same -/
+theorem c07_backends_agree {k₁ k₂ : Kind} {size c₁ c₂ : Nat} (hk₁ : k₁ ≠ .vec) (hk₂ : k₂ ≠ .vec) (t₁ t₂ : Nat)
     (h₁ : Admissible k₁ size c₁) (h₂ : Admissible k₂ size c₂) (d : α) (xs : List α) :
-    ∃ w₁ w₂, history k₁ size c₁ d xs = .ok w₁ ∧ history k₂ size c₂ d xs = .ok w₂ ∧
-      observe k₁ w₁ d = observe k₂ w₂ d := by
-  obtain ⟨w₁, hh₁, ho₁⟩ := c07_window_is_last_n hk₁ h₁ d xs
-  obtain ⟨w₂, hh₂, ho₂⟩ := c07_window_is_last_n hk₂ h₂ d xs
+    ∃ w₁ w₂, history k₁ t₁ size c₁ d xs = .ok w₁ ∧ history k₂ t₂ size c₂ d xs = .ok w₂ ∧
+      observe k₁ t₁ w₁ d = observe k₂ t₂ w₂ d := by
+  obtain ⟨w₁, hh₁, ho₁⟩ := c07_window_is_last_n hk₁ t₁ h₁ d xs
+  obtain ⟨w₂, hh₂, ho₂⟩ := c07_window_is_last_n hk₂ t₂ h₂ d xs
   exact ⟨w₁, w₂, hh₁, hh₂, by rw [ho₁, ho₂]⟩
 
 /-- with equal cell counts the correct back-ends even go through identical internal states -/
-theorem c07_backends_same_state {k₁ k₂ : Kind} {size c₁ c₂ : Nat} (hk₁ : k₁ ≠ .vec) (hk₂ : k₂ ≠ .vec)
+theorem c07_backends_same_state {k₁ k₂ : Kind} {size c₁ c₂ : Nat} (hk₁ : k₁ ≠ .vec) (hk₂ : k₂ ≠ .vec) (t₁ t₂ : Nat)
     (h₁ : Admissible k₁ size c₁) (h₂ : Admissible k₂ size c₂) (hc : cells k₁ size c₁ = cells k₂ size c₂)
     (d : α) (xs : List α) :
-    history k₁ size c₁ d xs = history k₂ size c₂ d xs := by
+    history k₁ t₁ size c₁ d xs = history k₂ t₂ size c₂ d xs := by
   have key : ∀ (ys : List α) (w : St α) (pre : List α), Inv size (cells k₁ size c₁) w pre →
-      run k₁ w ys = run k₂ w ys := by
+      run k₁ t₁ w ys = run k₂ t₂ w ys := by
     intro ys
     induction ys with
     | nil => intro w pre _; rfl
     | cons y ys ih =>
       intro w pre h
-      obtain ⟨e₁, hi⟩ := c07_push hk₁ h (fun e => cells_double h₁ e) y
-      obtain ⟨e₂, _⟩ := c07_push hk₂ (hc ▸ h) (fun e => cells_double h₂ e) y
+      obtain ⟨e₁, hi⟩ := c07_push hk₁ t₁ h (fun e => cells_double h₁ e) y
+      obtain ⟨e₂, _⟩ := c07_push hk₂ t₂ (hc ▸ h) (fun e => cells_double h₂ e) y
       simp only [run, e₁, e₂, ← hc]
       exact ih _ _ hi
   obtain ⟨n₁, hi⟩ := c07_new h₁ d
   obtain ⟨n₂, _⟩ := c07_new h₂ d
   simp only [history, n₁, n₂, ← hc]
   exact key xs _ _ hi
+
+/-- the element size is irrelevant: the unsafe array storage, the only one that branches on `size_of::<T>()`
+(16-byte chunks for types of 4 bytes and more), goes through the same states whatever the size -/
+theorem c07_element_size_irrelevant {k : Kind} {size c : Nat} (hk : k ≠ .vec) (t₁ t₂ : Nat) (h : Admissible k size c)
+    (d : α) (xs : List α) :
+    history k t₁ size c d xs = history k t₂ size c d xs :=
+  c07_backends_same_state hk hk t₁ t₂ h h rfl d xs
 
 /-! ### hypotheses are satisfiable, theorems are not vacuous -/
 
@@ -206,8 +218,8 @@ example : Admissible .vecFixed 3 2 := by decide
 /-- a history that crosses the rewind boundary of a 4-cell buffer three times -/
 def sampleHistory : List Nat := [1, 2, 3, 4, 5, 6, 7, 8, 9, 10, 11, 12, 13]
 
-example : (match history .arr 3 4 0 sampleHistory with
-    | .ok w => observe .arr w 0 | _ => observe .arr (init 0 0 0) 0) = Obs.ofSpec (Spec.Window.observe 3 sampleHistory) := by
+example : (match history .arr 8 3 4 0 sampleHistory with
+    | .ok w => observe .arr 8 w 0 | _ => observe .arr 8 (init 0 0 0) 0) = Obs.ofSpec (Spec.Window.observe 3 sampleHistory) := by
   decide
 example : Spec.Window.observe 3 sampleHistory =
     { size := 3, empty := false, filled := true, first := some 11, last := some 13,
@@ -215,18 +227,20 @@ example : Spec.Window.observe 3 sampleHistory =
 example : Spec.Window.observe 3 [7, 8] =
     { size := 3, empty := false, filled := false, first := some 7, last := none,
       slice := none, vec := none, arr := none } := by decide
-example : (match history .uarr 5 6 0 (List.range 40) with
-    | .ok w => slice .uarr w | _ => .panic) = .ok [35, 36, 37, 38, 39] := by decide
-example : (match history .uvec 3 2 0 sampleHistory with
-    | .ok w => slice .uvec w | _ => .panic) = .ok [11, 12, 13] := by decide
-example : (match history .vecFixed 3 2 0 sampleHistory with
-    | .ok w => slice .vecFixed w | _ => .panic) = .ok [11, 12, 13] := by decide
+example : (match history .uarr 12 5 6 0 (List.range 40) with
+    | .ok w => slice .uarr 12 w | _ => .panic) = .ok [35, 36, 37, 38, 39] := by decide
+example : (match history .uarr 1 5 6 0 (List.range 40) with
+    | .ok w => slice .uarr 1 w | _ => .panic) = .ok [35, 36, 37, 38, 39] := by decide
+example : (match history .uvec 8 3 2 0 sampleHistory with
+    | .ok w => slice .uvec 8 w | _ => .panic) = .ok [11, 12, 13] := by decide
+example : (match history .vecFixed 8 3 2 0 sampleHistory with
+    | .ok w => slice .vecFixed 8 w | _ => .panic) = .ok [11, 12, 13] := by decide
 /-- the hypothesis `multiple ≥ 2` is needed: with multiple 1 the safe vector storage panics and the unsafe one
 copies overlapping ranges with `copy_nonoverlapping` / writes out of bounds -/
-example : history .vec 2 1 0 [1, 2, 3] = .panic := by decide
-example : history .uvec 2 1 0 [1, 2, 3] = .ub := by decide
+example : history .vec 8 2 1 0 [1, 2, 3] = .panic := by decide
+example : history .uvec 8 2 1 0 [1, 2, 3] = .ub := by decide
 /-- the hypothesis `SIZE < CAPACITY` is what the constructors assert -/
-example : history .arr 3 3 0 ([] : List Nat) = .panic := by decide
+example : history .arr 8 3 3 0 ([] : List Nat) = .panic := by decide
 
 /-! ## today's `storage_vec.rs` (`Kind.vec`): defect F1
 
@@ -238,8 +252,8 @@ lost. What does hold is the statement for histories up to the capacity (no rewin
 
 /-- slice after constructing `k size c` and pushing `xs` (natural-number elements, default 0) -/
 def sliceAfter (k : Kind) (size c : Nat) (xs : List Nat) : Out (List Nat) :=
-  match history k size c 0 xs with
-  | .ok w => slice k w
+  match history k 8 size c 0 xs with
+  | .ok w => slice k 8 w
   | .err => .err
   | .panic => .panic
   | .ub => .ub
@@ -261,12 +275,12 @@ theorem c07_vec_fails :
 
 /-- what holds for today's safe vector storage: every history that does not exceed the capacity `size * multiple`
 (the rewind path has not run yet) is observed correctly -/
-theorem c07_vec_partial {size c : Nat} (h : Admissible .vec size c) (d : α) (xs : List α)
+theorem c07_vec_partial {size c : Nat} (tsz : Nat) (h : Admissible .vec size c) (d : α) (xs : List α)
     (hx : xs.length ≤ size * c) :
-    ∃ w, history .vec size c d xs = .ok w ∧ observe .vec w d = Obs.ofSpec (Spec.Window.observe size xs) := by
+    ∃ w, history .vec tsz size c d xs = .ok w ∧ observe .vec tsz w d = Obs.ofSpec (Spec.Window.observe size xs) := by
   have key : ∀ (ys : List α) (w : St α) (pre : List α), Inv size (size * c) w pre → w.tail = pre.length →
       pre.length + ys.length ≤ size * c →
-      ∃ w', run .vec w ys = .ok w' ∧ Inv size (size * c) w' (pre ++ ys) := by
+      ∃ w', run .vec tsz w ys = .ok w' ∧ Inv size (size * c) w' (pre ++ ys) := by
     intro ys
     induction ys with
     | nil => intro w pre h _ _; exact ⟨w, rfl, by simpa using h⟩
@@ -274,7 +288,7 @@ theorem c07_vec_partial {size c : Nat} (h : Admissible .vec size c) (d : α) (xs
       intro w pre hi ht hl
       simp only [List.length_cons] at hl
       have hroom : w.tail < size * c := by omega
-      have he := pushVec_eq_room w pre y hi hroom
+      have he := gen_push_vec_room w pre y hi hroom
       have hi' := next_inv w pre y hi
       have ht' : (next size (size * c) w pre y).tail = (pre ++ [y]).length := by
         have hroom' := hroom
@@ -282,13 +296,13 @@ theorem c07_vec_partial {size c : Nat} (h : Admissible .vec size c) (d : α) (xs
         simp [next, appended, ht, hroom']
       obtain ⟨w', hr, hw⟩ := ih _ _ hi' ht' (by simp; omega)
       refine ⟨w', ?_, by simpa using hw⟩
-      simp only [run, push, he, hr]
+      simp only [run, Gen.Window.push, he, hr]
   obtain ⟨hn, hi⟩ := c07_new h d
   simp only [cells] at hn hi
   obtain ⟨w, hr, hw⟩ := key xs _ _ hi (by simp [init]) (by simpa using hx)
   refine ⟨w, ?_, ?_⟩
   · simp only [history, hn, hr]
-  · exact inv_observe .vec (by simpa using hw) d
+  · exact gen_observe .vec tsz (by simpa using hw) d
 
 example : Admissible .vec 3 2 := by decide
 example : sliceAfter .vec 3 2 [1, 2, 3, 4, 5, 6] = .ok [4, 5, 6] := by decide
